@@ -5,7 +5,7 @@ import z3
 from . import ops
 from .vals import *
 from .ty import *
-from .execu import Res, Out, Unsupported
+from .execu import Res, Out, Unsupported, copy_env
 from .builtins_model import Builtins, S, B, I
 from .contracts import REC_OF_CLASS, HEAPCLASSES, CONTRACTS
 
@@ -135,7 +135,7 @@ class Lib(Builtins):
         p.env = dict(g.env)
         rs = ex.eval(comp.iter, p)
         for r in rs:
-            r.p.env = saved
+            r.p.env = copy_env(saved)
         return comp, rs
 
     def gen_to_list(self, ex, g, p, node):
@@ -168,7 +168,7 @@ class Lib(Builtins):
                                    lambda p5: conds(i + 1, p5), lambda p5: [Res(p5, acc)]))
                 out = conds(0, p2)
                 for r in out:
-                    r.p.env = saved
+                    r.p.env = copy_env(saved)
                 return out
             rs = ex.bind(rs, step)
         return ex.bind(rs, lambda p2, acc: [Res(p2, ex.mk_list(acc))])
@@ -304,3 +304,112 @@ class Lib(Builtins):
             keys = VList(v.k, s.accessor(0, 1)(v.z))
             return self.set_of(ex, p, node, keys)
         raise Unsupported(f'set() of {v!r} at {ex.where(node)}')
+
+
+# ==================================================================================================
+# hashlib / hmac / cryptography objects (trusted library contracts, DESIGN.md section 5 T2)
+from . import reflect
+
+HASHERS = ['hashlib.sha1', 'hashlib.sha256', 'hashlib.sha512']     # VObj('hasher') indices 1..3
+fn_hmac = z3.Function('hmac', z3.IntSort(), B, B, B)                # (hasher, key, data) -> digest
+fn_aes_enc = z3.Function('aes_cbc_enc', B, B, B, B)                 # (key, iv, plaintext)
+fn_aes_dec = z3.Function('aes_cbc_dec', B, B, B, B)
+
+
+def digest_size_term(hz):
+    ds = reflect.get()['digest_size']
+    return z3.If(hz == 1, I(ds['sha1']), z3.If(hz == 2, I(ds['sha256']), I(ds['sha512'])))
+
+
+def _lib_imported(self, qual):
+    if qual in HASHERS:
+        return VObj('hasher', HASHERS.index(qual) + 1)
+    if qual == 'cryptography.hazmat.primitives.ciphers.algorithms':
+        return VModule(qual)
+    if qual == 'cryptography.hazmat.primitives.ciphers.algorithms.AES':
+        return VObj('cipheralg', 1)
+    return Builtins.imported(self, qual)
+
+
+def _lib_call_obj(self, ex, f, args, kwargs, p, node):
+    if f.kind == 'hasher':
+        return [Res(p, VObj('hashobj', f.z))]
+    raise Unsupported(f'call of {f!r} at {ex.where(node)}')
+
+
+def _lib_value_attr(self, ex, base, attr, p, node):
+    if isinstance(base, VObj):
+        if base.kind == 'hashobj' and attr == 'digest_size':
+            p.add(z3.And(base.z >= 1, base.z <= 3))
+            return [Res(p, VInt(digest_size_term(base.z)))]
+        if base.kind == 'cipheralg':
+            r = reflect.get()
+            if attr == 'key_sizes':
+                return [Res(p, VFrozenSet([VInt(k) for k in r['aes_key_sizes']]))]
+            if attr == 'block_size':
+                return [Res(p, VInt(r['aes_block_size']))]
+            if attr == 'name':
+                return [Res(p, VStr('AES'))]
+        if base.kind == 'hmacobj' and attr == 'digest':
+            return [Res(p, VBuiltin('hmac.digest', self_v=base))]
+    return Lib._value_attr0(self, ex, base, attr, p, node)
+
+
+def _b_hmac_HMAC(self, ex, p, node, key, data, digestmod=None):
+    out = []
+    for x in (key, data):
+        if x is VNone:
+            return [Res(p, exc=VExc('TypeError'))]
+        if isinstance(x, VOpt):
+            q = p.fork()
+            if q.assume(x.isnone, ('hmac-none', node.lineno)):
+                out.append(Res(q, exc=VExc('TypeError')))
+            if not p.assume(z3.Not(x.isnone)):
+                return out
+    k = key.val if isinstance(key, VOpt) else key
+    d = data.val if isinstance(data, VOpt) else data
+    if not isinstance(k, VBytes) or not isinstance(d, VBytes) or not isinstance(digestmod, VObj):
+        raise Unsupported(f'HMAC arguments at {ex.where(node)}')
+    out.append(Res(p, VObj('hmacobj', digestmod.z, data=(k, d))))
+    return out
+
+
+def _b_hmac_digest(self, ex, p, node, h):
+    k, d = h.data
+    r = fn_hmac(h.z, k.z, d.z)
+    p.add(z3.Length(r) == digest_size_term(h.z))
+    return [Res(p, VBytes(r))]
+
+
+def _spec_call(self, sp, name, args, ctx):
+    """library functions available in specification expressions"""
+    if name == 'hasher_index':
+        return VInt(args[0].z)
+    if name == 'digest_size':
+        return VInt(digest_size_term(args[0].z))
+    if name == 'hmac':
+        r = fn_hmac(args[0].z, args[1].z, args[2].z)
+        ctx.facts.append(z3.Length(r) == digest_size_term(args[0].z))
+        return VBytes(r)
+    if name == 'aes_enc':
+        return VBytes(fn_aes_enc(args[0].z, args[1].z, args[2].z))
+    if name == 'aes_dec':
+        return VBytes(fn_aes_dec(args[0].z, args[1].z, args[2].z))
+    if name in ('is_a', 'as_a'):
+        v, nm = args
+        m = nm.conc()
+        u = UNIONS[v.name]
+        rec_sort(v.name)
+        if name == 'is_a':
+            return VBool(u.test[m](v.z))
+        return VRec(m, u.acc[m](v.z))
+    return None
+
+
+Lib.spec_call = _spec_call
+Lib._value_attr0 = Lib.value_attr
+Lib.value_attr = _lib_value_attr
+Lib.imported = _lib_imported
+Lib.call_obj = _lib_call_obj
+Lib.b_hmac_HMAC = _b_hmac_HMAC
+Lib.b_hmac_digest = _b_hmac_digest
